@@ -520,6 +520,17 @@ class _SyntheticFunc(object):
         self.node, self.qualname, self.name, self.decorators, self.owner = node, "<genexpr>", "<genexpr>", [], None
 
 
+class AFragList(object):
+    """A list of record fragments known only through the concatenation of its
+    items (all it may be used for is an additive fold: sum / reduce(add))."""
+
+    def __init__(self, rec):
+        self.rec = rec
+
+    def __repr__(self):
+        return "<fragments of %r>" % (self.rec,)
+
+
 class AGenCall(object):
     """A call of a repo generator function used as the iterable of a for loop:
     its body is run interleaved with the loop body (lazy iteration)."""
@@ -1341,6 +1352,27 @@ class Frame(object):
                 return self.with_stmt(st, k + 1)
             finally:
                 self.run_exit_callbacks(ctx, st)
+        if isinstance(ctx, AObj):
+            # an instance of a repo class used as a context manager: __enter__ / body / __exit__ on every way out
+            enter = I.p.class_attr_def(ctx.cls, "__enter__")[1]
+            leave = I.p.class_attr_def(ctx.cls, "__exit__")[1]
+            if not (isinstance(enter, FuncInfo) and isinstance(leave, FuncInfo)):
+                self.unsupported(st, "with on an object whose class defines no __enter__/__exit__")
+            v = I.call_function(enter, [ctx], {}, st)
+            if item.optional_vars is not None:
+                self.assign(item.optional_vars, v)
+            try:
+                self.with_stmt(st, k + 1)
+            except RaiseSig as rs:
+                r = I.call_function(leave, [ctx, Term("type", _t(rs.exc)), rs.exc, Term("traceback")], {}, st)
+                if r is not None and r is not False and I.truth(r, st):
+                    return None  # the manager swallows the exception
+                raise
+            except (ReturnSig, LoopContinue, LoopBreak, StepDone):
+                I.call_function(leave, [ctx, None, None, None], {}, st)
+                raise
+            I.call_function(leave, [ctx, None, None, None], {}, st)
+            return None
         if item.optional_vars is not None:
             self.assign(item.optional_vars, ctx if ctx is not None else Term("context", Term("L%d" % st.lineno)))
         return self.with_stmt(st, k + 1)
@@ -1503,7 +1535,8 @@ class Frame(object):
                     if isinstance(v, dict) and not v and nm in used:
                         self.env[nm] = AMap("map:" + nm, make_value=I.hooks.get("map_value"))
                 I.path.effects.append(("loop", it.source, it.items[0] if it.items else None))
-            I.path.effects.append(("loop", "generic-list", it))
+            else:
+                I.path.effects.append(("loop", "generic-list", it))
             I.loop_depth += 1
             try:
                 for x in list(it.items):
@@ -1891,6 +1924,11 @@ class Frame(object):
                         return r
                 if a == "__name__":
                     return base.name
+                ntf = _namedtuple_fields(I.p, base)
+                if ntf is not None and a == "_fields":
+                    return tuple(ntf)
+                if ntf is not None and a == "_make":
+                    return BoundMethod("py", lambda fr2, args, kwargs, node2: fr2.instantiate(base, list(args[0].items if isinstance(args[0], AList) else args[0]), {}, node2), a)
                 self.unsupported(node, "class attribute")
             if isinstance(raw, FuncInfo):
                 if raw.kind == "classmethod":
@@ -2250,10 +2288,24 @@ class Frame(object):
 
     def e_DictComp(self, e):
         I = self.I
-        if len(e.generators) != 1 or e.generators[0].ifs:
+        if len(e.generators) != 1:
             self.unsupported(e, "dict comprehension shape")
         g = e.generators[0]
         it = self.expr(g.iter)
+        conc = list(it) if isinstance(it, (list, tuple)) else list(it.items) if (isinstance(it, AList) and not it.generic) else list(it.items()) if False else None
+        if isinstance(it, dict) and not g.ifs:
+            conc = None
+        if conc is not None and all(isinstance(x, (str, int, tuple)) for x in conc):
+            # a table built entry by entry from a concrete sequence of names / pairs
+            out = {}
+            for x in conc:
+                sub = Frame(I, self.fi, dict(self.env), module=self.m)
+                sub.assign(g.target, x)
+                if all(I.truth(sub.expr(c), c) for c in g.ifs):
+                    out[_hashable(sub.expr(e.key))] = sub.expr(e.value)
+            return out
+        if g.ifs:
+            self.unsupported(e, "dict comprehension shape")
         if isinstance(it, Term) and it.op == "items" and isinstance(it.args[0], AMapGen):
             src: AMapGen = it.args[0]
             k, v = Term("key:" + src.name), src.value
@@ -2296,6 +2348,21 @@ class Frame(object):
             return self.nested_comprehension(e)
         g = e.generators[0]
         it = self.expr(g.iter)
+        if isinstance(it, AGenCall) and kind == "list":
+            # [fragment(x) for x in <lazy generator>]: a list of records that is only ever folded with + (anything else
+            # done to it is refused) is represented by the concatenation it will be folded into
+            def step(acc, x):
+                sub = Frame(I, self.fi, ChainEnv(self.env), module=self.m)
+                sub.assign(g.target, x)
+                if not all(I.truth(sub.expr(c), c) for c in g.ifs):
+                    return acc
+                v = sub.expr(e.elt)
+                if not isinstance(v, ARec):
+                    self.unsupported(e, "a list built from the generator that holds the loop under inductive evaluation, whose items are not records")
+                return self.binop(ast.Add(), acc, v, e) if acc is not None else v
+
+            empty = ARec(False, [], Term("fresh-record"), ctor="SeqRecord")
+            return AFragList(self.fold_generator(it, step, empty, e))
         if isinstance(it, AGenCall):
             if kind != "gen":
                 self.unsupported(e, "a %s comprehension materialises the generator that holds the loop under inductive evaluation" % kind)
@@ -2806,6 +2873,16 @@ def _dataclass_fields(p, ci):
 
 def lib_getattr(fr: Frame, base, a: str, node):
     I = fr.I
+    if isinstance(base, AFragList):
+        if a in ("append", "extend"):
+            def add(fr2, args, kwargs, node2):
+                x = args[0].rec if isinstance(args[0], AFragList) else args[0]
+                if not isinstance(x, ARec):
+                    fr2.unsupported(node2, "something other than a record added to the list of fragments")
+                base.rec = fr2.binop(ast.Add(), base.rec, x, node2)
+                return None
+            return BoundMethod("py", add, a)
+        fr.unsupported(node, "the list of fragments is used for something other than an additive fold (.%s)" % a)
     if isinstance(base, AExitStack):
         if a == "callback":
             def cb(fr2, args, kwargs, node2):
@@ -2830,6 +2907,9 @@ def lib_getattr(fr: Frame, base, a: str, node):
                 if raw.kind == "staticmethod":
                     return BoundMethod("repo", raw, a, extra=[])
                 return BoundMethod("repo", raw, a, extra=[base])
+            if owner is not None and isinstance(raw, (Const, ast.AST)):
+                # a class-level constant of the namedtuple class (a compiled pattern, a table)
+                return fr.getattr(base._nt_class, a, node)
         if a == "_fields":
             return tuple(base._nt_fields)
         if a == "_asdict":
@@ -2839,7 +2919,7 @@ def lib_getattr(fr: Frame, base, a: str, node):
                 vals = list(base)
                 for k, v in kwargs.items():
                     vals[base._nt_fields.index(k)] = v
-                return ANT.make(base._nt_fields, vals)
+                return ANT.make(base._nt_fields, vals, base._nt_class)
             return BoundMethod("py", repl, a)
     if isinstance(base, ARec):
         if a == "seq":
@@ -3028,6 +3108,8 @@ def lib_call_method(fr: Frame, bm: BoundMethod, args, kwargs, node):
             return Term("sites", *[_t(a) for a in args])
         if name in ("append", "extend", "insert", "remove", "pop", "setdefault", "add", "discard", "update", "sort"):
             I.path.effects.append(("mutate", t, name, args))
+            if name in ("append", "insert"):
+                I.path.termeq[("appended", repr(t))] = I.path.termeq.get(("appended", repr(t)), 0) + 1
             if name == "setdefault":
                 return Term("setdefault", t, *[_t(a) for a in args])
             return None
@@ -3188,6 +3270,8 @@ def map_method(fr: Frame, m, name, args, kwargs, node):
         if c == "absent":
             m.adds.append((key, val))
             return val
+        # the key is there (and stays): a later subscript / get / pop of the same key finds it
+        m.known[repr(key)] = True
         if c == "present-same":
             return val
         return m.value_for(key)
@@ -3254,7 +3338,8 @@ def lib_call(fr: Frame, dotted: str, args, kwargs, node):
         if isinstance(v, Term):
             t = Aff.sym("len(%r)" % (v,))
             I.path.cons.add(t)
-            return t
+            # the symbol is the length the list had when the path first met it: appends made since then count
+            return t + I.path.termeq.get(("appended", repr(v)), 0)
         if isinstance(v, AMap):
             t = Aff.sym("len:map:%s" % v.base)
             I.path.cons.add(t)
@@ -3315,6 +3400,14 @@ def lib_call(fr: Frame, dotted: str, args, kwargs, node):
         return AStruct("slice", lo=a[0], hi=a[1], step=a[2] if len(a) > 2 else None)
     if dotted == "functools.partial" and args:
         return ACallable("partial", *args, **kwargs)
+    if dotted == "functools.reduce" and len(args) == 3 and isinstance(args[1], AFragList):
+        is_add = (isinstance(args[0], ACallable) and args[0].kind == "operator" and args[0].data and args[0].data[0] in ("add", "concat")) or (
+            isinstance(args[0], LibRef) and args[0].dotted in ("operator.add", "operator.concat", "operator.__add__"))
+        if not is_add:
+            fr.unsupported(node, "a fold other than + over the list of fragments")
+        return fr.binop(ast.Add(), args[2], args[1].rec, node)
+    if dotted == "builtins.sum" and len(args) == 2 and isinstance(args[0], AFragList):
+        return fr.binop(ast.Add(), args[1], args[0].rec, node)
     if dotted == "functools.reduce" and len(args) == 3 and isinstance(args[1], AGenCall):
         return fr.fold_generator(args[1], lambda acc, x: fr.call_value(args[0], [acc, x], {}, node), args[2], node)
     if dotted == "builtins.sum" and len(args) == 2 and isinstance(args[0], AGenCall):
@@ -3392,6 +3485,11 @@ def lib_call(fr: Frame, dotted: str, args, kwargs, node):
             return v.cls
         if isinstance(v, ARec):
             return RecType(v.circular)
+        if isinstance(v, ANT):
+            # the namedtuple's own class: calling it builds another instance
+            if v._nt_class is not None:
+                return v._nt_class
+            return ANTType("namedtuple", v._nt_fields)
         return Term("type", _t(v))
     if dotted == "builtins.divmod" and len(args) == 2 and all(isinstance(a, (Aff, int)) and not isinstance(a, bool) for a in args):
         a, b = Aff.of(args[0]), Aff.of(args[1])
@@ -3410,6 +3508,8 @@ def lib_call(fr: Frame, dotted: str, args, kwargs, node):
         return ARange(args[0].lo, args[0].hi, desc=not args[0].desc)
     if dotted == "builtins.set" and not args:
         return I.new_term("set")
+    if dotted == "builtins.tuple" and len(args) == 1 and (isinstance(args[0], (list, tuple)) or (isinstance(args[0], AList) and not args[0].generic)):
+        return tuple(args[0].items if isinstance(args[0], AList) else args[0])
     if dotted in ("builtins.sorted", "builtins.set", "builtins.frozenset", "builtins.tuple") and len(args) >= 1:
         return Term(short, _t(args[0]))
     if dotted == "builtins.next" and args and isinstance(args[0], Term) and args[0].op in ("filter", "map"):
@@ -3469,6 +3569,13 @@ def lib_call(fr: Frame, dotted: str, args, kwargs, node):
         return out
     if dotted == "builtins.id" and len(args) == 1:
         return Term("id()", _t(args[0]))
+    if dotted == "builtins.enumerate" and args and (isinstance(args[0], (list, tuple)) or (isinstance(args[0], AList) and not args[0].generic)):
+        start = kwargs.get("start", args[1] if len(args) > 1 else 0)
+        if isinstance(start, Aff) and start.is_const:
+            start = start.c
+        if isinstance(start, int):
+            items = list(args[0].items if isinstance(args[0], AList) else args[0])
+            return AList([(start + i, x) for i, x in enumerate(items)], I.loop_depth)
     if dotted == "builtins.enumerate":
         return Term("enumerate", _t(args[0]))
     if dotted == "builtins.dict":
@@ -3492,8 +3599,12 @@ def lib_call(fr: Frame, dotted: str, args, kwargs, node):
         if isinstance(args[0], (list, tuple)):
             return AList(list(args[0]), I.loop_depth)
         if isinstance(args[0], AList):
-            out = AList(list(args[0].items), I.loop_depth)
-            out.generic = args[0].generic
+            src = args[0]
+            out = AList(list(src.items), I.loop_depth)
+            out.generic, out.generic_from, out.min_len = src.generic, src.generic_from, src.min_len
+            for extra in ("source", "filtered"):
+                if hasattr(src, extra):
+                    setattr(out, extra, getattr(src, extra))  # still one image per element of the input collection
             return out
         return args[0]
     if dotted in ("builtins.ValueError", "builtins.TypeError", "builtins.KeyError", "builtins.RuntimeError",
